@@ -147,14 +147,14 @@ CLAIMED = {
             "OwnedTxOut::recover_key on every owned output of sender-built transactions; library = model = python.",
             "PARTIAL: group laws are hypotheses (EdLaws); model hand-written from onetime_key.rs / transaction.rs",
             "Coq proof over an abstract group (partial) + correspondence", "4 C09"),
-    "C04": ("proof, partial. Coq theorems (Props/C04.v, 72), for all inputs and size tables: no consensus decoder of the model returns Panic or "
+    "C04": ("proof, partial. Coq theorems (Props/C04.v, 79), for all inputs and size tables: no consensus decoder of the model returns Panic or "
             "runs out of fuel (the codec has no fuel); loop bounds (a completed rep has n <= |input|, iterations <= |input|+1 also on the error "
             "path; zero-column MLSAG rows are the only non-consuming element and are unreachable from dec_tx); every allocation request <= 32 MiB "
-            "and the TOTAL of kept allocations of a successful transaction / block parse is <= A + B*|input| (C04_alloc_kept_total, worst ratio TxIn 64/2); tree-hash assert / block-id unwrap / ring checked_sub "
+            "and the TOTAL of kept allocations of a successful transaction / block parse is <= A + B*|input| (C04_alloc_kept_total); the PEAK of live reservations of every run of the transaction / block decoder - successful or failing, e.g. truncated after huge declared lengths - is <= 2*32 MiB + 1316 B + 33*|input| for the real size tables (C04_alloc_peak_tx / _block / _all_tables, over an instrumented copy of the decoders proved equal to the model by erasure; with_capacity reservations, amortised doubling of pushed vectors, nesting depth 2 attained by an 11-byte witness); tree-hash assert / block-id unwrap / ring checked_sub "
             "unreachable on parsed objects; all text parsers total; output scanning (all entry points, any table, any ranges, any key bytes), SubKeyChecker::check, check_view_tag at any position and OwnedTxOut::recover_key never panic in the model for every EdLaws group in which the constant H decodes (true of the executable instance by computation, shown necessary by a counter-instance). Runtime behaviour (unwinding, aborts, hangs, heap peak <= 129 MiB + 96*|input|) "
             "observed on ~1.3*10^5 adversarial evaluations in release and overflow-checking builds incl. operations on parsed objects and scanning "
             "with empty / reversed / extreme index ranges.",
-            "PARTIAL: the kept total is proved, the in-flight part of the live-allocation bound (32 MiB cap x nesting depth) is argued, not proved; hashing / formatting / scanning of parsed "
+            "PARTIAL: the allocation events of the instrumented decoders are read off std (exact with_capacity, doubling from capacity 4, from_iter with size hint 0) and off the ~10 allocation sites of the crate by inspection; allocator overhead, the ExtraField parser and operations on parsed objects are not instrumented; hashing / formatting of parsed "
             "objects and everything inside dependencies (dalek, tiny-keccak, base58-monero, hex, std), stack depth, wall clock and the real "
             "allocator are observed, not modelled",
             "Coq proof of the logic (partial) + runtime observation on the real crate in both profiles", "4 C04"),
